@@ -67,10 +67,10 @@ DESIGN = {
     "C08": [("retry_nocup.cfg", "all"), ("sched.cfg", 250), ("history.cfg", 400)],
     "C09": [("flow.cfg", "all"), ("sched.cfg", 250), ("history.cfg", 400)],
     "C10": [("flow.cfg", "all"), ("reports.cfg", "all")],
-    "C11": [("sched.cfg", 400), ("history.cfg", 200), ("sched_inv.cfg", "inv")],
+    "C11": [("sched.cfg", 400), ("history.cfg", 200), ("sched_inv.cfg", "inv"), ("live_sched.cfg", "live")],
     "C12": [("sched.cfg", 400), ("sched_inv.cfg", "inv")],
-    "C13": [("sched.cfg", 250), ("flow.cfg", "all")],
-    "C14": [("flow.cfg", "all")],
+    "C13": [("sched.cfg", 250), ("flow.cfg", "all"), ("live_sched.cfg", "live")],
+    "C14": [("flow.cfg", "all"), ("live_retry.cfg", "live"), ("live_sched.cfg", "live")],
     "C18": [("flow.cfg", "all"), ("sched.cfg", 250), ("history.cfg", 400)],
 }
 # (history_inv: 10.1 million distinct states, ~17 min on 8 workers: a crash at every operation of every behaviour, twice)
@@ -95,6 +95,20 @@ def design_runs(pid, tier, seed, wd):
     behs = []
     viols = []
     for cfg, how in DESIGN.get(pid, []):
+        if how == "live":
+            # liveness under fairness, no state constraint (FairSpec; properties named in the cfg)
+            rc, out, st = vlib.tlc("MCOmaha", os.path.join(vlib.SPEC, cfg), workers=8, name="design.%s.%s" % (pid, cfg), timeout=3000)
+            if "emporal properties were violated" in out or rc == 13:
+                i = out.find("emporal properties were violated")
+                rp = vlib.write_replay(pid, "design.%s.trace.txt" % cfg, out[max(0, i - 200):][:200000])
+                viols.append({"key": "%s:design-liveness:%s" % (pid, cfg), "replay": rp,
+                              "what": "the design model %s violates a liveness property (TLC trace in the replay file)" % cfg})
+            elif rc != 0:
+                raise vlib.ToolError("TLC failed on %s: %s" % (cfg, out[-1500:]))
+            stats["states"] += st.get("states", 0)
+            stats["transitions"] += st.get("transitions", 0)
+            stats["runs"].append({"cfg": cfg, "mode": "liveness under weak fairness", "states": st.get("states", 0), "wall_s": st.get("wall_s")})
+            continue
         path = prop_cfg(cfg, pid, wd)
         if how in ("all", "inv"):
             # "inv": exhaustive, VIEW without history, no behaviours printed
